@@ -153,6 +153,46 @@ def run(ctx):
                     fails.append(("exit-vs-tree", "%s: exit status %d (summary %s), but processing met an error and the documented contract says %s" % (label, rc, s, "fail" if want_truth else "succeed"), label))
                 if s is not None and s["errors"] == 0:
                     fails.append(("error-not-counted", "%s: an error occurred but the summary reports %s" % (label, s), label))
+        # a modifiable archive with a second name that no handler claims, that name being met first: it is still found modifiable
+        for brp, check, par in itertools.product([False, True], repeat=3):
+            sub = "alias%d%d%d" % (brp, check, par)
+            t.add_file(sub + "/lib/libfoo.a", fc.ar([("x.o/", 1700000000, 7, 8, 100644, b"abc")]))
+            t.link(sub + "/lib/libfoo.a", sub + "/0-cache/libfoo.a.orig")
+            t.add_file(sub + "/lib/clean.gz", fc.gz(5))
+            args, env = [], {}
+            if brp:
+                args.append("--brp")
+                env["RPM_BUILD_ROOT"] = t.root
+            if check:
+                args.append("--check")
+            if par:
+                args.append("-j2")
+            rc, out = fh.run_cli(args + [t.path(sub + "/0-cache"), t.path(sub + "/lib")], epoch=samples.EPOCH, env_extra=env, timeout=60)
+            s = fh.parse_summary(out)
+            label = "%s%s%s a modifiable archive whose other name, claimed by no handler, comes first" % ("--brp " if brp else "", "--check " if check else "", "-j2 " if par else "")
+            extra.append(label)
+            want_truth = contract(check, brp, False, False, True)
+            if (rc != 0) != want_truth or s is None or s["modified"] != 1:
+                fails.append(("exit-vs-tree", "%s: exit status %d (summary %s), but the tree holds a modifiable file and the documented contract says %s" % (label, rc, s, "fail" if want_truth else "succeed"), label))
+        # one of two workers is killed (it crosses a file-size limit with the default action of SIGXFSZ) while the other goes on: its files
+        # count as failed, whatever the other reports
+        for brp in (False, True):
+            sub = "killed%d" % brp
+            t.add_file(sub + "/big.a", fc.ar([("big.o/", 1700000000, 7, 8, 100644, bytes(range(256)) * 256)]))
+            for k in range(6):
+                t.add_file(sub + "/small%d.gz" % k, fc.gz(1700000000 + k))
+            env = {"RPM_BUILD_ROOT": t.root} if brp else {}
+            rc, out = fh.run_cli((["--brp"] if brp else []) + ["-j2", t.path(sub)], epoch=samples.EPOCH, env_extra=env, timeout=60, fsize_limit=8192, fsize_kill=True)
+            s = fh.parse_summary(out)
+            label = "%s-j2 with one worker killed by a signal" % ("--brp " if brp else "")
+            extra.append(label)
+            want_truth = contract(False, brp, True, False, True)
+            if open(t.path(sub + "/big.a"), "rb").read()[24:34] != b"1700000000":
+                continue                      # the archive was rewritten after all: the limit did not bite, nothing to judge
+            if (rc != 0) != want_truth:
+                fails.append(("exit-vs-tree", "%s: exit status %d (summary %s), but a worker died with its file unprocessed and the documented contract says %s" % (label, rc, s, "fail" if want_truth else "succeed"), label))
+            if s is not None and s["errors"] == 0:
+                fails.append(("error-not-counted", "%s: a worker was lost but the summary reports %s" % (label, s), label))
         # nothing wrong at all, but a path longer than a kilobyte: every mode succeeds, with and without workers
         for brp, check, par in itertools.product([False, True], repeat=3):
             sub = "long%d%d%d" % (brp, check, par)
